@@ -99,15 +99,32 @@ func (lrw *limitedResponseWriter) WriteHeader(statusCode int) {
 // Support http.Hijacker if underlying supports it (for websockets)
 func (lrw *limitedResponseWriter) Hijack() (net.Conn, *bufio.ReadWriter, error) {
 	if h, ok := lrw.ResponseWriter.(http.Hijacker); ok {
-		return h.Hijack()
+		conn, brw, err := h.Hijack()
+		if err == nil {
+			// The connection now belongs to the caller: nothing more may be written through this writer
+			lrw.wroteHeader = true
+		}
+		return conn, brw, err
 	}
 	return nil, nil, http.ErrNotSupported
 }
 
 // Support http.Flusher if underlying supports it
 func (lrw *limitedResponseWriter) Flush() {
+	// Flushing commits the header: send the recorded status first, not the implicit 200
+	if !lrw.limitReached {
+		lrw.ensureHeaderWritten()
+	}
 	if f, ok := lrw.ResponseWriter.(http.Flusher); ok {
 		f.Flush()
+	}
+}
+
+// finish sends a status code that was recorded by WriteHeader but never followed by a Write
+// (HEAD, 204, 304, redirects, empty error responses).
+func (lrw *limitedResponseWriter) finish() {
+	if !lrw.wroteHeader && !lrw.limitReached && lrw.statusCode != 0 {
+		lrw.ensureHeaderWritten()
 	}
 }
 
@@ -182,6 +199,7 @@ func newSizeLimitMiddleware(name string, cfg map[string]interface{}) (Middleware
 
 			// Call next handler with the limited response writer
 			next.ServeHTTP(lrw, r)
+			lrw.finish()
 		})
 	}, nil
 }
